@@ -15,7 +15,9 @@ RULE = ("cases: lanczos_tridiag called directly on symmetric PSD matrices {full 
         "root_decomposition / root_inv_decomposition(initial_vectors, test_vectors) / diagonalization with method='lanczos'. oracle: "
         "Q^T Q = I; T symmetric tridiagonal; Q^T A Q = T; A Q - Q T zero outside its last column; Q T Q^T = A on the Krylov space when the "
         "budget reaches its dimension; consumers: root R R^T equals the orthogonal compression of A (A^-1 on that subspace) onto range(R) "
-        "and A itself at full Krylov rank; the lanczos.* hook events give the number of iterations kept and enforce the step bound. "
+        "and A itself at full Krylov rank; per member / probe of a batch: wherever the BUDGET reaches that member's Krylov dimension its "
+        "residual A Q - Q T vanishes (a run cut short because another member broke down does not satisfy this); "
+        " the lanczos.* hook events give the number of iterations kept and enforce the step bound. "
         "distinct key = (clause, matrix family, start-vector kind, budget relative to n, dtype, batch rank)")
 ASSUMPTIONS = ["float64 dense products are the reference", "tolerances scale with ||A||: 1e-8 (f64) / 2e-3 (f32), calibrated on the unchanged tree (1e-15 / 7e-7)"]
 REQUIRED_STATS = ("runs",)
